@@ -113,15 +113,22 @@ ADAPT_BUGS = {"noclip": ("Tiling",), "noclamp": ("MinStepSize", "MinStep"), "acc
 # Observation of the real loop
 # ---------------------------------------------------------------------------------------------------------
 
+class WatchdogExpired(RuntimeError):
+    pass
+
+
 class RecordingBrownian(torchsde.BaseBrownian):
     """A BaseBrownian that forwards to `inner` and logs (ta, tb) of every call."""
 
-    def __init__(self, inner, log=None):
+    def __init__(self, inner, log=None, max_calls=None):
         super().__init__()
         self.inner = inner
         self.log = [] if log is None else log
+        self.max_calls = max_calls          # watchdog: a loop that never ends is stopped here
 
     def __call__(self, ta, tb=None, return_U=False, return_A=False):
+        if self.max_calls is not None and len(self.log) >= self.max_calls:
+            raise WatchdogExpired(f"more than {self.max_calls} Brownian queries: the stepping loop does not terminate")
         self.log.append((float(ta), None if tb is None else float(tb)))
         return self.inner(ta, tb, return_U=return_U, return_A=return_A)
 
@@ -220,10 +227,6 @@ class LoopRecorder:
         (adaptive_stepping.compute_error, adaptive_stepping.update_step_size,
          base_solver.BaseSDESolver.integrate) = self._orig
         return False
-
-
-class WatchdogExpired(RuntimeError):
-    pass
 
 
 # ---------------------------------------------------------------------------------------------------------
@@ -336,10 +339,10 @@ class Problem:
         self.y0 = (torch.randint(-16, 17, (batch, d), generator=gen).to(self.dtype)) / 16.0
         self.entropy = 7919 * (seed + 1) + 13
 
-    def bm(self, t0, t1):
+    def bm(self, t0, t1, max_calls=2000):
         inner = torchsde.BrownianInterval(t0=t0, t1=t1, size=(self.batch, self.m), dtype=self.dtype,
                                           entropy=self.entropy, levy_area_approximation=self.c["levy"])
-        return RecordingBrownian(inner)
+        return RecordingBrownian(inner, max_calls=max_calls)
 
     def sdeint(self, ts_f, dt, bm, y0=None, **kw):
         c = self.c
@@ -561,7 +564,7 @@ def analyse(events, bm_log, ts_f, ts_dtype, y0, dt, adaptive, dt_min=0.0, rtol=N
     n_ts = len(ts_f)
     for i, t in enumerate(ts_f):
         if i == 0:
-            ok = ys is not None and ys.shape[0] > 0 and _same(ys[0], y0)
+            ok = True if ys is None else (ys.shape[0] > 0 and _same(ys[0], y0))   # aborted run: nothing returned
             first_out = dict(k="out", idx=1, t=t, a=t, b=t, kind="y0", valOK=bool(ok))
             ra.out_prov.append((0, Fraction(0)))
             continue
@@ -573,13 +576,15 @@ def analyse(events, bm_log, ts_f, ts_dtype, y0, dt, adaptive, dt_min=0.0, rtol=N
         val = ys[i] if ys is not None and ys.shape[0] > i else None
         if t == b:
             kind = "grid"
-            ok = val is not None and yb is not None and _same(val, yb)
+            ok = True if ys is None else (val is not None and yb is not None and _same(val, yb))
             ra.out_prov.append((j + 1, Fraction(0)))
         else:
             kind = "interp"
             w = frac_weight(t, a, b)
             ra.out_prov.append((j, w))
-            if val is None or ya is None or yb is None:
+            if ys is None:
+                ok = True
+            elif val is None or ya is None or yb is None:
                 ok = False
             else:
                 ok, ulp = interp_ok(val, ya, yb, w.numerator, w.denominator)
@@ -1002,7 +1007,7 @@ def _c14_scripted_one(c, seed, item):
         if ra.complete and ra.out_prov != want_prov:
             fails.append((dict(key, check="replay:outputs"),
                           f"ts={beh['ts']} schedule {replay['sched']}: output provenance {ra.out_prov} != spec {want_prov}", replay))
-    return dict(fails=fails, trace=(ra.hdr, ra.ev), drift=ra.drift if mode == "classes" else [], steered=steered,
+    return dict(fails=fails, trace=(ra.hdr, cap_trace(ra.ev)[0]), drift=ra.drift if mode == "classes" else [], steered=steered,
                 ntrials=len(ra.trials), key=key, replay=replay)
 
 
@@ -1050,6 +1055,25 @@ def natural_problems(seed, quick):
     return probs
 
 
+def watchdog_limit(span, dt_min):
+    """Bound on the number of trials of a terminating run: every accepted step but the last is >= dt_min
+    (<= span/dt_min + 1 accepted steps); the controller shrinks geometrically after a rejection, so a handful of
+    rejections per accepted step; factor 4 is generous (natural runs here use < 1.5 trials per accepted step)."""
+    return 4 * (int(math.ceil(span / dt_min)) + 1) + 50
+
+
+MAX_TRACE_EVENTS = 4000
+
+
+def cap_trace(ev):
+    """Traces longer than MAX_TRACE_EVENTS are validated on their first MAX_TRACE_EVENTS events (DESIGN 4.2); an aborted
+    (watchdog) run keeps its "abort" event so that it is still rejected with clause Terminates."""
+    if len(ev) <= MAX_TRACE_EVENTS:
+        return ev, False
+    tail = ev[-1] if ev[-1]["k"] == "abort" else dict(k="cut")
+    return ev[:MAX_TRACE_EVENTS] + [tail], True
+
+
 def c14_natural(job):
     torch.set_num_threads(1)
     pr, seed = job["prob"], job["seed"]
@@ -1066,9 +1090,9 @@ def c14_natural(job):
         p.m = {"diagonal": pr["d"], "additive": 1, "scalar": 1, "general": 2}[pr["noise"]]
         p.y0 = p.y0 + 1.5                      # away from the fixed point 0
     ts_f = pr["ts"]
-    bm = p.bm(ts_f[0], ts_f[-1])
     span = ts_f[-1] - ts_f[0]
-    limit = 20 * (int(math.ceil(span / pr["dt_min"])) + 1)
+    limit = watchdog_limit(span, pr["dt_min"])
+    bm = p.bm(ts_f[0], ts_f[-1], max_calls=8 * limit + 100)
     key = dict(label=c["label"], noise=c["noise"], dtype=c["dtype"], mode="natural")
     aborted = False
     with LoopRecorder(bm, max_trials=limit) as rec:
@@ -1086,7 +1110,10 @@ def c14_natural(job):
                  clamped=sum(1 for d in tr if d["raw"] < pr["dt_min"]),
                  max_norm_rel_dev=max([abs(d["_norm"][0] - d["_norm"][1]) / max(d["_norm"]) for d in tr if "_norm" in d] or [0.0]),
                  max_interp_ulp=ra.max_interp_ulp)
-    return dict(fails=[], trace=(ra.hdr, ra.ev), drift=ra.drift, stats=stats, key=key, name=pr["name"])
+    ev, cut = cap_trace(ra.ev)
+    stats["trace_cut"] = cut
+    stats["terminated"] = not aborted
+    return dict(fails=[], trace=(ra.hdr, ev), drift=ra.drift, stats=stats, key=key, name=pr["name"])
 
 
 def tolerance_exploration(seed, n_paths=6):
@@ -1099,9 +1126,13 @@ def tolerance_exploration(seed, n_paths=6):
     for k in range(n_paths):
         p = Problem(c, seed * 100 + k, batch=4, d=2, sde=LinearSDE(lam, sig, "diagonal", "ito"))
         p.y0 = p.y0.abs() + 0.5
-        bm = p.bm(0.0, T)
+        bm = p.bm(0.0, T, max_calls=None)
         for tol in (1e-2, 1e-3, 1e-4):
-            ys = p.sdeint([0.0, T], 0.25, bm, adaptive=True, rtol=tol, atol=tol, dt_min=2.0 ** -14)
+            with LoopRecorder(None, max_trials=20000) as rec:       # watchdog only
+                try:
+                    ys = p.sdeint([0.0, T], 0.25, bm, adaptive=True, rtol=tol, atol=tol, dt_min=2.0 ** -14)
+                except WatchdogExpired:
+                    return None
             w = bm.inner(0.0, T)
             exact = p.y0 * torch.exp((-lam - 0.5 * sig ** 2) * T + sig * w)
             errs[tol].append(float((ys[-1] - exact).abs().mean()))
